@@ -12,7 +12,7 @@ fn fmt_stub2(_a: core::fmt::Arguments<'_>) -> String {
 }
 
 // @harness c18_add_cache_slice
-// @props C18 C16 C01
+// @props C18 C16 C01 C02
 // @tier quick
 // @cost 60
 // @timeout 900
